@@ -80,7 +80,7 @@ def send_sequence(ncalls, planted=None):
     return scenario
 
 
-FORMS = [[('', '', [['main']]), ('', ';main', [['main']])], [('', '', [['x']]), ('?', ';x', [['x']]), ('??', '', [['x']])]]
+FORMS = [[('', '', [['main']])], [('', '', [['x']]), ('?', ';x', [['x']]), ('??', '', [['x']])]]
 
 
 def recv_requests(npub, polls, nones, planted=None, low_latency=None):
@@ -102,8 +102,9 @@ def recv_requests(npub, polls, nones, planted=None, low_latency=None):
         for s in ctx.r.senders.values():
             if s.ephemeral == 2 and s.push is not None: e.fail('eph2-push', '?? source has a request socket', {'kind': 'eph2-push'})
         ctx.prev_cnt = cnt; ctx.prev_to = to
+        check_request_marks(ctx)
     def scenario(e):
-        recv_stream(e, FORMS, npub, polls, nones, check, low_latency=low_latency)
+        recv_stream(e, FORMS, npub, polls, nones, check, low_latency=low_latency, any_order=True)
     return scenario
 
 
@@ -122,7 +123,7 @@ def harnesses(tier):
                 bounds={'send() calls': 3 if q else 4, 'requests between calls': '0-2 from 2 consumers, ids unbounded', 'time step': '[0, CONN_TIMEOUT) ms symbolic'},
                 functions=fn, stubs=stubs, assumptions=assume, budget_s=900),
         Harness('c04.recv_requests', recv_requests(2, 12, 2), twin=recv_requests(2, 12, 2, planted=True),
-                bounds={'sources': 2, 'forms': '2 x 3 (sync/?/??)', 'publishes_per_source': 2, 'poll_decisions': 12, 'poll time-outs': '<=2'},
+                bounds={'sources': 2, 'forms': '1 x 3 (sync/?/??), both source orders', 'publishes_per_source': 2, 'poll_decisions': 12, 'poll time-outs': '<=2'},
                 functions=fn, stubs=stubs, assumptions=assume, budget_s=900),
     ]
     from props import s_level as SL
